@@ -105,8 +105,10 @@ CHECKS["C13"] = dict(
 CHECKS["C14"] = dict(
     text="Reduced claim: (Hpath) the real solve_forces dispatch for every solver type x initial guess after an earlier solve at a different, directly modified state: every residual "
          "evaluation, linear system and the integration use flow properties computed for the current state and the documented dispatch is followed; (Hlin) the real _solve_linear assembles "
-         "exactly the documented linearised system for arbitrary symbolic flow arrays. Equality of converged roots across paths and the asymptotic clause are outside.",
-    note="FlowStub/ResidStub; loop unrolled twice; uniqueness of the root not decided.",
+         "exactly the documented linearised system for arbitrary symbolic flow arrays; (Heq) with the real flow-property, linear-start, residual and integration code (sections uninterpreted in alpha, Re, Mach, flap) "
+         "the residual function each path iterates on after a history (none / earlier solve elsewhere, _solved kept or cleared) is, for every circulation, that of a fresh scene at the current state, and so are the loads. "
+         "Equality of converged roots across paths and the asymptotic clause are outside.",
+    note="FlowStub/ResidStub (Hpath); loop unrolled twice; Heq: Newton loop / fsolve cut to one residual evaluation at an arbitrary circulation, member m1 N=2; uniqueness of the root not decided.",
     technique="bounded symbolic execution of the real solver dispatch with recording stubs + z3; replay on real code",
     ref="5/C14")
 
@@ -149,7 +151,7 @@ CHECKS["C04"] = dict(
          "aircraft and on its mirror image (sides swapped, CG-y negated) in the mirrored state (orientation, position, velocity, wind reflected; rates reflected as a pseudo-vector), all state "
          "symbolic: every cut array is the reflected one (moments as pseudo-vectors, rows permuted by matching reflected control points), the residual rows are equal and Fx,Fz,My,CL,CD,.. equal / "
          "Fy,Mx,Mz,CS,.. negated in every frame. The body-frame geometry of both aircraft comes from the real constructors and is compared under the reflection (1e-12).",
-    note="Members m1 (right-only), g6 (left wing mounted with y_offset + tail placed from its root), thorough: g3, g1 (self-mirror), g2 (90 deg fin, Reid); no control deflections (sign of antisymmetric controls: C15); "
+    note="Members m1 (right-only), g6 (left wing mounted with y_offset + tail placed from its root), thorough: + g3 (left wing, right stab with y_offset); two-sided (self-mirror) and 90-degree-fin members were not run and are outside; no control deflections (sign of antisymmetric controls: C15); "
          "geometry generation for arbitrary descriptions: C12; uniqueness of the lifting-line root outside.",
     technique="relational bounded symbolic execution (mirror twin with cut points, row permutation and atom search-alignment) + z3 polynomial identities; replay on real code",
     ref="9.6")
